@@ -142,6 +142,12 @@ func (w *c34World) exec(c c34Case) (diff, detail string, agree obs34, steps int)
 			}
 			sts = append(sts, step{src: op.Src, sign: s1()})
 		}
+	case "txgrid":
+		var sign []common.Address
+		if !c.Two { // Two is reused as "no prepare block: no signer"
+			sign = s1()
+		}
+		sts = []step{{src: c.Src, sign: sign}}
 	case "proggen-script", "proggen-tx":
 		base = w.pgBase
 		arg := []cadence.Value{cadence.NewInt(3)}
@@ -245,6 +251,22 @@ func runC34(env *mc.Env) {
 		env.R.Add("castgrid_accepted", 1)
 		env.R.Nontrivial("g|" + g.Name)
 		env.R.Class("castgrid:"+outcomeClass(agree), func() any { return c })
+	})
+	// 1c. transaction block-presence grid: prepare / pre / execute / post present or absent x conditions true or
+	//     false x a storage write in prepare (and in execute)
+	tg := txGrid34()
+	env.R.Set("txgrid_transactions", len(tg))
+	mc.ParallelFor(env, len(tg), func(i int) {
+		g := tg[i]
+		c := c34Case{Level: "txgrid", Src: g.Src, Two: !g.Prepare, Shape: g.Name}
+		d, detail, agree, steps := w.exec(c)
+		env.R.EvalN(int64(2 * steps))
+		if d != "" {
+			env.R.Violation("txgrid:"+g.Name+"|"+d, c, "transaction "+g.Name+": "+detail)
+			return
+		}
+		env.R.Nontrivial("x|" + g.Name)
+		env.R.Class("txgrid:"+outcomeClass(agree), func() any { return c })
 	})
 	// 2. every ordered pair of snippets that agree on their own (a pair containing a snippet that
 	//    already differs alone would only repeat that difference)
